@@ -756,9 +756,9 @@ func (gs *GossipSubRouter) OnClosedIncomingStream(pid peer.ID, proto protocol.ID
 	if gs.gate != nil {
 		gs.gate.OnClosedIncomingStream(pid, proto)
 	}
-	if gs.feature(GossipSubFeatureExtensions, proto) {
-		gs.extensions.OnClosedIncomingStream(pid, proto)
-	}
+	// HandleRPC records extension state for every peer that sends us an RPC, whatever
+	// protocol its stream speaks, so always clean it up.
+	gs.extensions.OnClosedIncomingStream(pid, proto)
 }
 
 func (gs *GossipSubRouter) OnNewOutboundStream(p peer.ID, proto protocol.ID, helloPacket *RPC) *RPC {
